@@ -24,6 +24,15 @@ def jobs_for(ctx, n):
             reqs.append({"iface": "tf", "split": 0, "shuffle": 0, "repeat": True, "file_parallelism": rng.choice([1, 2, 4]), "batch": rng.choice([2, 3, 5, 7, 16]),
                          "epochs": 3, "extra": rng.choice([0, 1])})
         jobs.append({"dataset": spec, "requests": reqs})
+    # very long streams: a thousand and more epochs of a tiny split (anything that grows per epoch -- recursion depth, a list, a counter -- shows only then)
+    Wl = ["W", 0, None, True]
+    spec = {"format": "fb", "compression": "", "eps": 2, "sessions": [{"kind": "filler", "sub": [], "reopen": False, "ops": [Wl] * 3}]}
+    jobs.append({"dataset": spec, "requests": [{"iface": iface, "split": 0, "shuffle": sh, "repeat": True, "file_parallelism": 2, "epochs": 1300, "extra": 1}
+                                               for iface in ("sync", "concurrent", "async", "rust") for sh in ((0, 2) if iface == "sync" else (0,))]})
+    # a split of several thousand examples over two and a half epochs (anything capped at a few thousand shows only then)
+    spec = {"format": "fb", "compression": "", "eps": 700, "sessions": [{"kind": "filler", "sub": [], "reopen": False, "ops": [Wl] * 5000}]}
+    jobs.append({"dataset": spec, "requests": [{"iface": iface, "split": 0, "shuffle": 0, "repeat": True, "file_parallelism": 2, "epochs": 2, "extra": 2500}
+                                               for iface in (("sync", "async") if ctx.quick else ("sync", "concurrent", "async", "rust", "tf"))]})
     # two repeating streams alive at once and pulled alternately (training / validation), per interface
     W = lambda s: ["W", s, None, True]  # noqa: E731
     for fmt, comp in (("fb", ""), ("fb", "LZ4"), ("npz", "")):
